@@ -1,11 +1,13 @@
 import BezierVerif.Driver
 import BezierVerif.ModelDriver
+import BezierVerif.HeapDriver
 
 namespace Driver
 
 def step (line : String) : String :=
   match words line.trimAscii.toString with
   | "gen" :: rest => handleGen rest
+  | "model" :: "heap.history" :: rest => HeapDriver.runHistory rest
   | "model" :: name :: rest => ModelDriver.handle name rest
   | "ping" :: _ => "pong"
   | _ => "bad-op"
